@@ -42,7 +42,7 @@ def gen(tier: str, seed: int) -> list[Case]:
     rng = rng_for(seed, PID, "gen")
     gated = gated_features()
     cfg = cfg_for(gated)
-    n = 24 if tier == "quick" else 400
+    n = 24 if tier == "quick" else 1600
     cases = []
     for i in range(n):
         cfg.n_modules = (4, 9)
